@@ -62,16 +62,16 @@ ADD2 = {
 }
 # rounds 11-12: new scopes and the deepened bounds (supersede the depths quoted earlier in each text)
 ADD3 = {
- "C01": "; bounds as of round 11: automaton alphabet to depth 5 (7) from the 4-literal setup and 4 (5) from the 4-distance setup",
+ "C01": "; bounds as of round 11: automaton alphabet to depth 5 (7) from the 4-literal setup and 4 (5) from the 4-distance setup; an eleventh presentation with a memory limit equal to the dictionary in effect (automaton scope and 4096-wrap scope)",
  "C02": "; a family the format's reference decoder refuses but lzma-rs accepts - an LZMA chunk without properties after a mid-stream dictionary reset - as 544 position-polarised sequences with a uniform-verdict oracle (refused as a whole, or every member decoded exactly with positions counted from the reset); bounds as of round 11: every sequence of <= 3 (4) chunks over 94 kinds and <= 4 (5) over the 34 reduced kinds",
  "C08": "; bounds as of round 11: the grid also over every program '4 literals + <= 2 (3) symbols of the automaton alphabet', 5 (12) lc/lp/pb settings",
  "C09": "; bounds as of round 11: circular dictionaries 1..5 (7), accumulating histories <= 10 (13), raw-decoder dictionaries 1..7 (12)",
  "C10": "; bounds as of round 11: circular dictionaries 1..5 (7) x every limit, raw-decoder dictionaries 1..8 (11) x every limit",
- "C11": "; bounds as of round 11: automaton scope to depth 4 (5), BufReader capacities 1..4 (12)",
+ "C11": "; bounds as of round 11: automaton scope to depth 4 (5), BufReader capacities 1..4 (12); payloads whose last symbol is a match at every distance-slot boundary up to 4096 x six length classes x 2 (6) salts",
  "C12": "; encoder targets whose output contains a cached byte plus a run of >= 9 pending 0xFF bytes released at once (carry witnesses of the model-guided search); thorough tier: every call index and every sink cut up to 20 000 bytes, no stride",
  "C13": "; stored chunks of 1/2/3/9 bytes in mid-stream (with and without dictionary reset) followed by copies into / one byte before / far before them, by state-inheriting chunks and by an illegal control byte, alone and as XZ blocks",
  "C14": "; bounds as of round 11: call histories to depth 7 (10), symbol-level first streams up to length 17 (21)",
- "C17": "; bounds as of round 11: every second (every) well-formed 2-chunk sequence over the reduced kinds; thorough also every 2-chunk sequence over the full kinds and every 3-chunk sequence over the reduced kinds (3 613 bases)",
+ "C17": "; bounds as of round 11: every second (every) well-formed 2-chunk sequence over the reduced kinds; thorough also every 2-chunk sequence over the full kinds and every 3-chunk sequence over the reduced kinds (3 613 bases); every size-field mutant and every mutant of up to 40 bytes is also read through a BufReader of every capacity 1..len+1, bytewise and cut in half",
 }
 for k_, v_ in ADD3.items():
     ADD[k_] = ADD.get(k_, "") + v_
